@@ -371,6 +371,7 @@ impl Engine for C01 {
                             env: vec![],
                             env_remove: vec![],
                             timeout: Duration::from_secs(8),
+                            stdout_to: None,
                         },
                     );
                     let cr = match cr {
